@@ -11,7 +11,10 @@ before, of garbage collections, of the order of the configuration calls or of th
      formats; lvl = RegisterLevel / SetLevelOutputWidth between records; dbg = the process-wide
      debug/trace switches; big = size classes around powers of two; clr = SetLevelColors of a
      built-in and a custom severity with every combination {no fg, fg} x {none, bg, attribute}
-     between records of 1..4 lines), invariants and the
+     between records of 1..4 lines; nest = DESTINATIONS THAT LOG: every wiring of three loggers of the three
+     formats to single passive / logging destinations, two destinations of which the first or the second logs,
+     through another logger or the very logger the destination serves, chains of depth 2 and 3 - every payload
+     handed to a destination must be the complete record of ITS logger and class), invariants and the
      history-independence action property are checked, the labelled graph is dumped;
      EncoderHistMech.tla shows which hidden-state disciplines leak (witnesses).
   2. An edge cover of each graph plus seeded random deeper histories over the union vocabulary
@@ -89,6 +92,20 @@ def rc(sev, msg, args, via="method", caller=False, cls="", sizes=None, cfile="pl
     return dict(sev=sev, msg=list(msg), sizes=list(sizes or [0] * len(msg)), args=args, caller=caller, cfile=cfile, cls=cls, via=via)
 
 
+def passive():
+    return dict(log=False, l=0, r=0)
+
+
+def logs(l, r):
+    """A destination that, inside Write and before it reads its argument, logs a record of class r through slot l."""
+    return dict(log=True, l=l, r=r)
+
+
+def dest_forms(g):
+    """DestForms of the specification: form 1 is the single passive destination, g["destforms"] follow."""
+    return [[passive()]] + [list(f) for f in g.get("destforms", [])]
+
+
 M1 = ["plain"]
 M3 = ["plain", "LF", "plain", "space", "plain", "LF", "plain"]
 MT = ["plain", "LF"]
@@ -137,7 +154,7 @@ def groups(fmt, quick):
     own1 = [node(45, "string", 45)]
     gs = []
     base = dict(customs=[], regforms=[], widths=[], minwidths=[], switchkinds=[], switchvias=[], gcs=[], forms=[], hist=1,
-                kinds="split", colsevs=[], colfgs=[], colbgs=[])
+                kinds="split", colsevs=[], colfgs=[], colbgs=[], destforms=[])
     # --- cfg: how a logger got into its mode
     gs.append(dict(base, name="cfg", hist=0 if quick else 1,
                    slots=[dict(mode="color", named=False, own=[]), dict(mode="color", named=True, own=own1)],
@@ -202,6 +219,27 @@ def groups(fmt, quick):
                             rc(101, M1, [node(1, "int", 1)], via="logattrs", cls="c1"),
                             rc(101, M3 + ["LF"], [node(1, "string", 1), node(2, "group", 2, sub=[node(3, "int", 3)])],
                                via="logattrs", caller=True, cls="c3")]))
+    # --- nest: destinations that log from inside Write before they read their argument
+    nest_classes = [rc(4, M1, [node(1, "int", 1)], cls="o1"),
+                    # Warn goes to the error device (SetErrorWriter / AddErrorWriter)
+                    rc(3, M3, [node(1, "string", 1), node(2, "error", 2)], via="ctx", cls="o2"),
+                    rc(5, M1, [node(1, "int", 1), node(2, "group", 2, sub=[node(3, "string", 3)]), node(4, "bool", 4)],
+                       via="logattrs", caller=True, cls="o3"),
+                    # what an auditing / rotating writer reports: shorter ...
+                    rc(4, ["plain", "space", "plain"], [node(5, "string", 1), node(6, "int", 2)], cls="n1"),
+                    # ... and longer than the record it was handed
+                    rc(2, M1, [node(5, "string", 1, size=300), node(6, "string", 2, vc="quote")], via="ctx", cls="n2")]
+    more = [] if quick else [[logs(2, 4), logs(3, 5)],      # 7: two destinations, both log
+                             [logs(1, 5), passive()]]       # 8: the first logs a long record through slot 1
+    gs.append(dict(base, name="nest", hist=0,
+                   slots=[dict(mode=f0, named=False, own=own1), dict(mode=f1, named=True, own=[]),
+                          dict(mode=f2, named=False, own=[])],
+                   destforms=[[logs(2, 4)],                 # 2: one destination, reports through the logger of slot 2
+                              [logs(3, 5)],                 # 3: ... through slot 3, a record longer than most outer ones
+                              [logs(1, 4)],                 # 4: ... through slot 1 (wired to slot 1: the logger it serves)
+                              [logs(2, 4), passive()],      # 5: two destinations, the first logs
+                              [passive(), logs(3, 4)]] + more,   # 6: two destinations, the second logs
+                   classes=nest_classes))
     return gs
 
 
@@ -211,6 +249,8 @@ def mix_group(fmt, quick):
     classes = []
     for n in ("cfg", "seq", "lvl", "dbg", "clr"):
         classes += gs[n]["classes"]
+    nest_at = len(classes)                  # the nest classes keep their order: the destination forms name them by index
+    classes += gs["nest"]["classes"]
     bigs = [c for c in gs["big"]["classes"] if c["cls"] == "big"]
     classes += bigs[:3] + bigs[-2:]
     for i, cf in enumerate(["bslash", "space", "C0", "nonascii", "lsep", "CR", "DEL", "astral", "equals", "markup"]):
@@ -219,7 +259,9 @@ def mix_group(fmt, quick):
         classes.append(rc((4, 3, 2, 9)[i % 4], (M1, M3, MT)[i % 3], [node(1, ("int", "string", "error")[i % 3], 1)],
                           via=("method", "ctx", "logattrs")[i % 3], caller=True, cfile=cf, cls="c-" + cf))
     own3 = [node(40, "int", 40), node(41, "string", 41), node(42, "bool", 42)]
+    destforms = [[dict(d, r=d["r"] + nest_at) if d["log"] else d for d in f] for f in gs["nest"]["destforms"]]
     return dict(name="mix", hist=0, kinds="split", customs=[101, 102, 103], regforms=["title", "titlecolor", "tags", "tagsbg"],
+                destforms=destforms,
                 widths=[1, 2, 3, 4, 5], minwidths=[16, 36, 80], switchkinds=["debug", "trace"],
                 switchvias=["set", "child", "new", "pkg", "ext"], gcs=[1, 2], forms=cfg_forms(3, quick),
                 colsevs=[2, 3, 4, 5, 9, 101, 102, 103], colfgs=["none", "fg"], colbgs=["none", "bg", "attr"],
@@ -246,6 +288,7 @@ def tla_consts(g):
         Customs=set(g["customs"]), RegForms=set(g["regforms"]), Widths=set(g["widths"]), MinWidths=set(g["minwidths"]),
         SwitchKinds=set(g["switchkinds"]), SwitchVias=set(g["switchvias"]), GCs=set(g["gcs"]),
         ColSevs=set(g.get("colsevs", [])), ColFgs=set(g.get("colfgs", [])), ColBgs=set(g.get("colbgs", [])),
+        DestForms=dest_forms(g), DestIds=set(range(1, len(dest_forms(g)) + 1)) if g.get("destforms") else set(),
         ProcKinds={True, False},
     )
 
@@ -274,6 +317,8 @@ def label_to_event(label, counter):
         return dict(op="SetMinW", m=a[0])
     if name == "SetColors":
         return dict(op="SetColors", c=a[0], fg=a[1], bg=a[2])
+    if name == "Wire":
+        return dict(op="Wire", l=a[0], w=a[1])
     raise Undecided("unknown action label %r" % label)
 
 
@@ -281,11 +326,13 @@ def explore(ctx, g):
     """Exhaustive TLC run of one group with graph dump -> cover behaviours (lists of events)."""
     mc, cfg = gen_mc("MC_EncH_" + g["name"], "EncoderHist", tla_consts(g),
                      ["INIT HInit", "NEXT HNext", "ALIAS DumpAlias", "CHECK_DEADLOCK FALSE",
-                      "INVARIANTS TypeOK OblLive OthersDoNotMatter SwitchesDoNotMatter ColoursOfOthersDoNotMatter",
+                      "INVARIANTS TypeOK OblLive OthersDoNotMatter SwitchesDoNotMatter ColoursOfOthersDoNotMatter "
+                      "DestinationsDoNotMatter NestBounded",
                       "PROPERTIES EmitsAreSilent"],
                      plain=dict(PLAIN, HistDepth=g["hist"]))
     dot = os.path.join(ctx.scratch, "ench-graph-" + g["name"])
     nm = "MC_EncH_" + g["name"]
+    t0 = time.time()
     r = ctx.tlc(nm, nm + ".cfg", files={nm + ".tla": mc, nm + ".cfg": cfg},
                 extra=["-dump", "dot,actionlabels", dot], name="ench-mc-" + g["name"], workers=4, heap="3g", timeout=900)
     nodes, edges, inits = parse_dot_edges(dot + ".dot")
@@ -308,7 +355,7 @@ def explore(ctx, g):
         raise Undecided("history group %s: edge cover incomplete (%d edges unreachable)" % (g["name"], unvisited))
     behaviours = [[dict(evs[i]) for i in beh] for beh in covers]
     info = dict(states=r.distinct, generated=r.generated, graph_states=len(reach), graph_edges=len(sub), cover_behaviours=len(behaviours),
-                cover_events=sum(len(b) for b in behaviours))
+                cover_events=sum(len(b) for b in behaviours), explore_s=round(time.time() - t0, 1))
     return behaviours, info
 
 
@@ -323,33 +370,51 @@ def mech_group():
                          rc(2, M3, [node(1, "error", 1)], cls="multi"), rc(101, M1, [node(1, "int", 1)], cls="c1")])
 
 
-MECH_VARIANTS = ["faithful", "keep-restlines", "memo-tags", "alias-own", "debug-live", "fg-only-close"]
+def mech_nest_group():
+    """The vocabulary of the early-release witness: wiring and records only (the other disciplines need no destinations
+    that log, so their group has none and keeps its size)."""
+    return dict(name="mechnest", hist=0, kinds="both", customs=[], regforms=[], widths=[], minwidths=[], switchkinds=[], switchvias=[],
+                gcs=[1], colsevs=[], colfgs=[], colbgs=[], forms=[],
+                destforms=[[logs(2, 2)], [passive(), logs(1, 1)]],
+                slots=[dict(mode="json", named=False, own=[node(40, "int", 40)]), dict(mode="logfmt", named=True, own=[])],
+                classes=[rc(4, M1, [], cls="bare"), rc(3, M1, [node(1, "int", 1)], cls="a1")])
+
+
+MECH_VARIANTS = ["faithful", "keep-restlines", "memo-tags", "alias-own", "debug-live", "fg-only-close", "early-release"]
 
 
 def mech_check(ctx):
-    """EncoderHistMech: the faithful disciplines do not leak, five sloppy ones do (vacuity of NoLeak)."""
+    """EncoderHistMech: the faithful disciplines do not leak, six sloppy ones do (vacuity of NoLeak)."""
     res = {}
-    g = mech_group()
+    runs = [(v, mech_group()) for v in MECH_VARIANTS if v != "early-release"]
+    runs += [("faithful", mech_nest_group()), ("early-release", mech_nest_group())]
 
-    def one(variant):
-        nm = "MC_EncHM_" + variant.replace("-", "_")
+    def one(item):
+        variant, g = item
+        nm = "MC_EncHM_" + variant.replace("-", "_") + ("_nest" if g["name"] == "mechnest" else "")
         mc, cfg = gen_mc(nm, "EncoderHistMech", dict(tla_consts(g), Variant=variant),
                          ["INIT MInit", "NEXT MNext", "CHECK_DEADLOCK FALSE", "INVARIANTS NoLeak"],
                          plain=dict(PLAIN, HistDepth=0))
-        r = ctx.tlc(nm, nm + ".cfg", files={nm + ".tla": mc, nm + ".cfg": cfg}, name="ench-mech-" + variant, workers=2,
+        r = ctx.tlc(nm, nm + ".cfg", files={nm + ".tla": mc, nm + ".cfg": cfg}, name="ench-mech-" + variant + "-" + g["name"], workers=2,
                     heap="2g", allow_fail=True, timeout=600)
-        return variant, r
+        return variant, g["name"], r
 
-    with concurrent.futures.ThreadPoolExecutor(max_workers=6) as ex:
-        for variant, r in ex.map(one, MECH_VARIANTS):
+    counts = [0, 0]
+    with concurrent.futures.ThreadPoolExecutor(max_workers=8) as ex:
+        for variant, gname, r in ex.map(one, runs):
             violated = "NoLeak" in r.invariant_violated
             if variant == "faithful":
                 if not r.ok:
-                    raise Undecided("EncoderHistMech (faithful) failed:\n" + r.out[-3000:])
-                res["_counts"] = (r.distinct, r.generated)
+                    raise Undecided("EncoderHistMech (faithful, %s) failed:\n%s" % (gname, r.out[-3000:]))
+                counts[0] += r.distinct
+                counts[1] += r.generated
+                if gname == "mechnest":
+                    res["faithful (destinations that log)"] = "holds"
+                    continue
             elif not violated:
                 raise Undecided("EncoderHistMech witness %s: NoLeak was expected to be violated\n%s" % (variant, r.out[-2000:]))
             res[variant] = "holds" if not violated else "violated (as expected)"
+    res["_counts"] = tuple(counts)
     return res
 
 
@@ -375,6 +440,8 @@ def random_behaviours(g, rng, count, depth):
                 beh.append(dict(op="Emit", l=rng.randint(1, ns), r=r))
             elif x < 0.63 and g["gcs"]:
                 beh.append(dict(op="GC", n=rng.choice(g["gcs"])))
+            elif x < 0.68 and g.get("destforms"):
+                beh.append(dict(op="Wire", l=rng.randint(1, ns), w=rng.randint(1, len(g["destforms"]) + 1)))
             elif x < 0.80 and nf:
                 beh.append(dict(op="Configure", l=rng.randint(1, ns), f=rng.randint(1, nf)))
             elif x < 0.85 and g["customs"]:
@@ -420,7 +487,8 @@ def assign_salts(behaviours, start):
 
 
 def script_of(ctx, g, behaviours, base=0):
-    return dict(seed=ctx.seed, base=base, slots=g["slots"], forms=g["forms"], classes=g["classes"], behaviours=behaviours)
+    return dict(seed=ctx.seed, base=base, slots=g["slots"], forms=g["forms"], classes=g["classes"], destforms=dest_forms(g),
+                behaviours=behaviours)
 
 
 def run_script(ctx, script, testing, name, timeout=1500):
@@ -474,6 +542,10 @@ def validate(ctx, g, trace_paths, name):
         done = r.prints("done")
         if not done:
             raise Undecided("history trace validation did not reach the end of the log (%s):\n%s" % (cname, r.out[-3000:]))
+        shape = r.prints("shape")
+        if shape:
+            raise Undecided("history trace validation: the deliveries of an Emit are not the ones the model lists (%s): %s"
+                            % (cname, json.dumps(shape[0])[:600]))
         bad = r.prints("bad")
         if len(bad) != done[-1][0]:
             raise Undecided("history trace validation: %d @@bad lines but counter says %d" % (len(bad), done[-1][0]))
@@ -526,9 +598,31 @@ def event_classes(g, events, rows):
             out.append("MW")
         elif op == "SetColors":
             out.append("Col(%s,%s+%s)" % ("builtin" if ev["c"] < 100 else "custom", ev["fg"], ev["bg"]))
+        elif op == "Wire":
+            out.append("Wire(%s)" % wire_class(g, ev, modes))
         else:
             out.append(op)
     return out
+
+
+def wire_class(g, ev, modes):
+    """Shape of a destination form: per destination 'passive' or 'logs' (+ ':self' when it logs through the logger it
+    serves, else the format of the logger it logs through when known)."""
+    forms = dest_forms(g)
+    w = ev["w"]
+    if not 1 <= w <= len(forms):
+        return "?"
+    out = []
+    for d in forms[w - 1]:
+        if not d["log"]:
+            out.append("passive")
+        elif d["l"] == ev["l"]:
+            out.append("logs:self")
+        elif modes and 1 <= d["l"] <= len(modes):
+            out.append("logs:" + modes[d["l"] - 1])
+        else:
+            out.append("logs")
+    return "+".join(out)
 
 
 def classes_with_modes(g, events, reset_row, rows):
@@ -537,6 +631,8 @@ def classes_with_modes(g, events, reset_row, rows):
     for ev, row in zip(events, rows):
         if ev["op"] == "Emit":
             out.append("E(%s,%s)" % (modes[ev["l"] - 1], g["classes"][ev["r"] - 1]["cls"]))
+        elif ev["op"] == "Wire":
+            out.append("Wire(%s)" % wire_class(g, ev, modes))
         else:
             out.append(event_classes(g, [ev], [row])[0])
             if ev["op"] == "Configure":
@@ -615,7 +711,7 @@ def differential(ctx, fmt, g, run, rows, limit, tag):
         op = row["op"]
         if op == "Reset":
             st = dict(modes=[getter_mode(m[0], m[1]) for m in row["modes"]], named=list(row["named"]), width=row["width"],
-                      minw=row["minw"], reg={}, col={}, dbg=row["dbg"], trc=row["trc"])
+                      minw=row["minw"], reg={}, col={}, dbg=row["dbg"], trc=row["trc"], dest={})
             k = -1
         else:
             k += 1
@@ -628,6 +724,8 @@ def differential(ctx, fmt, g, run, rows, limit, tag):
                 st["col"].pop(str(row["c"]), None)
         elif op == "SetColors":
             st["col"][str(row["c"])] = [row["fg"], row["bg"]]
+        elif op == "Wire":
+            st["dest"][str(row["l"])] = row["w"]
         elif op in ("Switch", "SwitchOff"):
             st["dbg"], st["trc"] = row["dbg"], row["trc"]
         elif op == "SetWidth" and 1 <= row["w"] <= 5:
@@ -653,6 +751,7 @@ def differential(ctx, fmt, g, run, rows, limit, tag):
         beh = [dict(op="Init", modes=s0["modes"], named=s0["named"])]
         beh += [dict(op="Register", c=int(c), g=f) for c, f in sorted(s0["reg"].items())]
         beh += [dict(op="SetColors", c=int(c), fg=v[0], bg=v[1]) for c, v in sorted(s0["col"].items())]
+        beh += [dict(op="Wire", l=int(l), w=w) for l, w in sorted(s0["dest"].items()) if w != 1]
         if s0["width"] != 3:
             beh.append(dict(op="SetWidth", w=s0["width"]))
         if s0["minw"] != 36:
@@ -700,11 +799,13 @@ def plan(ctx, fmt):
     """Explore all groups (parallel TLC runs), build the scripts per group and process kind."""
     quick = ctx.quick()
     gs = groups(fmt, quick)
-    with concurrent.futures.ThreadPoolExecutor(max_workers=6) as ex:
+    with concurrent.futures.ThreadPoolExecutor(max_workers=8) as ex:
+        t0 = time.time()
         futs = [ex.submit(explore, ctx, g) for g in gs]
         mech = ex.submit(mech_check, ctx)
         covers = [f.result() for f in futs]
         mres = mech.result()
+        ctx.extra["hist_mech_s"] = round(time.time() - t0, 1)
     # counters are added here, in the main thread (the TLC runs above were exhaustive model checks)
     d, gnr = mres.pop("_counts")
     ctx.states += d + sum(info["states"] for _, info in covers)
@@ -777,7 +878,8 @@ def run_history(ctx, fmt):
     reported = set()
     nshrunk = 0
     seen_pre = {}
-    stats = dict(events=0, emits=0, emits_own_format=0, behaviours=0, rejected_own_format=0, rejected_other_format=0,
+    stats = dict(events=0, emits=0, emits_own_format=0, deliveries=0, deliveries_own_format=0, nested_records=0,
+                 max_nesting_depth=0, behaviours=0, rejected_own_format=0, rejected_other_format=0,
                  skipped_outside_domain=0, mode_notes=0)
     for (g, runs), (bad, skipped, notes) in zip(executed, results):
         stats["skipped_outside_domain"] += skipped
@@ -811,6 +913,17 @@ def run_history(ctx, fmt):
                     m = modes[row["l"] - 1]
                     if m == fmt:
                         stats["emits_own_format"] += 1
+                    sub = row.get("sub") or []
+                    stats["deliveries"] += 1 + len(sub)
+                    for x in sub:
+                        if x["d"] > 0:
+                            stats["nested_records"] += 1
+                            stats["max_nesting_depth"] = max(stats["max_nesting_depth"], x["d"])
+                        if modes[x["l"] - 1] == fmt:
+                            stats["deliveries_own_format"] += 1
+                            # what kind of delivery of the property's format was judged (nested record / outer record whose
+                            # destination logs / copy for a second destination)
+                            sigs.add((g["name"], run["testing"], "delivery", x["d"] > 0, x["k"], row["l"], row["r"], x["l"], x["r"]))
                     cur = "E(%s,%d,%d)" % (m, row["l"], row["r"])
                 else:
                     cur = row["op"] + str(row.get("g", "")) + str(row.get("k", "")) + str(row.get("v", "")) + str(row.get("w", "")) + \
@@ -854,6 +967,9 @@ def run_history(ctx, fmt):
             if seen_pre[pre] > 1 or nshrunk >= 6:
                 continue                 # one minimal reproducer per (group, violated clauses); the rest is counted
             details = read_ndjson(run["details"])[pos + 1 + ei]
+            if b.get("sub", 0) > 0 and len(details.get("sub") or []) >= b["sub"]:
+                details = details["sub"][b["sub"] - 1]          # the rejected delivery is not the line's own one
+            nest = sorted(f.split(":", 1)[1] for f in b["feats"] if f.startswith("nest:"))
             classes = classes_with_modes(g, events, reset_row, beh_rows)
             nshrunk += 1
             try:
@@ -878,17 +994,21 @@ def run_history(ctx, fmt):
                 replay_behs = run["behaviours"][:bi] + [events]
                 base = 0
             key = "hist:%s:%s:%s" % (fmt, "+".join(diag), hist_key)
+            if nest:
+                key += ":" + "+".join(nest)
             if key in reported:
                 continue
             reported.add(key)
             what = ("%s record (%s process, group %s) rejected by EncoderHist after the history [%s]: violated %s; "
-                    "payload=%s msg=%s" % (fmt, "go-test" if run["testing"] else "production", g["name"],
-                                           " > ".join(classes[-8:]), ",".join(diag), details.get("payload", "")[:600],
-                                           details.get("msg", "")[:120]))
+                    "%spayload=%s msg=%s" % (fmt, "go-test" if run["testing"] else "production", g["name"],
+                                             " > ".join(classes[-8:]), ",".join(diag),
+                                             ("delivery %s of the last Emit (%s) - what the destination found in the argument of "
+                                              "its Write when it read it; " % (b.get("sub", 0), ", ".join(nest))) if nest else "",
+                                             details.get("payload", "")[:600], details.get("msg", "")[:120]))
             ctx.finding(key, what, dict(kind="enchist", fmt=fmt, testing=run["testing"], seed=ctx.seed, key=key, diag=diag,
                                         group=g, base=base, behaviours=replay_behs))
     ctx.traces += stats["behaviours"]
-    ctx.evaluations += stats["emits"]
+    ctx.evaluations += stats["deliveries"]
     ctx.nontrivial += len(sigs)
     ctx.extra["hist"] = stats
     ctx.extra["hist_differential"] = diffstats
@@ -896,6 +1016,9 @@ def run_history(ctx, fmt):
     if stats["emits_own_format"] == 0:
         raise Undecided("history component: no record of format %s was emitted" % fmt)
     ctx.assumptions += [
+        "history component, destinations that log: a destination owns the argument of its Write until it returns - what is judged is "
+        "what it finds there when it reads it, after the record it logged itself is out (single goroutine, GOMAXPROCS 1); a "
+        "destination never re-enters itself; concurrency between writers is C08's",
         "history component: which mode a call sequence produces is C11's property - records are judged in the mode the "
         "getters JSONMode()/ColorMode() report (JSON first); records of the other two formats inside a history are context "
         "and are not reported by this property's check",
@@ -907,7 +1030,7 @@ def run_history(ctx, fmt):
 def replay(ctx, fmt, rp):
     g = rp["group"]
     script = dict(seed=rp.get("seed", ctx.seed), base=rp.get("base", 0), slots=g["slots"], forms=g["forms"],
-                  classes=g["classes"], behaviours=rp["behaviours"])
+                  classes=g["classes"], destforms=dest_forms(g), behaviours=rp["behaviours"])
     ctx.seed = rp.get("seed", ctx.seed)
     tp, dp = run_script(ctx, script, rp.get("testing", False), "ench-replay", timeout=600)
     bad, skipped, _ = validate(ctx, g, [tp], "replay")
